@@ -130,18 +130,22 @@ CLAIMS = {
              "violation with a call path from a public entry point. Local discharging arguments are machine-checked by "
              "evaluating the function on a grid of shapes and small magnitudes (this is how the unreachable!() in range "
              "conjunction was found); error mapping of encode::compile; only nom complete combinators; recursion cycles of the "
-             "exact instance call graph.",
+             "exact instance call graph; classes with a descending range never reach the final program as written (a regex "
+             "syntax error is a panic).",
         note=ASSUME + "Audited, not proven: non-local discharging arguments. Panics inside dependencies assumed away. Known "
              "findings: overflow expects near the word size, panic on non-size regex errors, unbounded recursion depth.",
         ref="4 C05"),
     "C02": dict(
-        technique="static analysis: THIR case-table evaluation of the glob walker's closure (decision procedure per entry) and of WalkProgram::compile",
-        text="NARROW: the exactness law over trees x bases x globs is not decided. Decided per entry, on every cell of depth "
-             "0..3 x programs 0..3 x own-component match x complete match: a tree is discarded only when the entry's own "
-             "component fails the program of the same index, an entry is yielded only on a match of the complete program on "
-             "the root-relative path (with that match and pivot stored), everything else is node residue; component programs "
-             "cover exactly the maximal boundary-free prefix; same compiler for component and complete programs.",
-        note=ASSUME + "The central behavioural law is NOT decided (rooted globs, `..` prefixes, pivot arithmetic). Assumed: walkdir semantics.",
+        technique="static analysis: THIR case-table evaluation of the glob walker's closure (decision procedure per entry, incl. rooted / `..` / `.` relative paths), of join_and_get_depth + split_at_depth on abstract component sequences, and of WalkProgram::compile",
+        text="NARROW: walkdir's enumeration is assumed, the exactly-once law as a whole is not decided. Decided per entry, on "
+             "every cell of depth 0..3 x programs 0..3 x lead component (none, RootDir, ParentDir, CurDir) x prefix components x "
+             "own-component match x complete match: a program is only compared with the component of its own index, a tree is "
+             "discarded only when the entry's own component fails its program, an entry is yielded only on a match of the "
+             "complete program on the root-relative path (with that match and pivot stored), everything else is node residue; "
+             "the root-relative path is the prefix as written plus the traversed names for every base x prefix shape; "
+             "component programs cover exactly the maximal boundary-free prefix; same compiler for component and complete "
+             "programs; a cancellation skips exactly the judged directory.",
+        note=ASSUME + "Assumed: walkdir semantics; std::path semantics as modelled in sa/rules/pathmodel.py. Found and repaired with it: rooted globs stopped descending (19caab6), `..` prefixes yielded nothing (821abd1); known: `./` prefixes.",
         ref="4 C02"),
     "C03": dict(
         technique="static analysis: THIR case-table evaluation of the negation's partition, program construction and verdict function + shared feed tables",
@@ -161,12 +165,14 @@ CLAIMS = {
         note=ASSUME + "The central behavioural law is NOT decided. Known gap not visible here: globs rooted through a repetition keep their root.",
         ref="4 C08"),
     "C14": dict(
-        technique="static analysis: THIR evaluation of split_at_depth on abstract paths + sibling agreement of the helpers' arguments",
-        text="NARROW: depth/pivot arithmetic for rooted and dotted bases is not decided. Decided: split_at_depth returns an "
-             "ancestor of the same path and its strip_prefix for every depth (join = path); GlobEntry::root_relative_paths, "
-             "GlobEntry::depth and the walker use the same helper with (path, walkdir depth, stored pivot) and the same sum; "
-             "to_candidate_path = complete matched text.",
-        note=ASSUME + "The central behavioural law is NOT decided. Assumed: std::path semantics, walkdir depth.",
+        technique="static analysis: THIR evaluation of join_and_get_depth and split_at_depth on abstract paths (component sequences) over a base x prefix x depth table + sibling agreement of the helpers' arguments",
+        text="Decided on abstract component sequences: for every base shape (empty, `.`, relative, `./x`, absolute) x prefix "
+             "shape (none, literal, rooted, with `..`, with `.`) x traversal depth, the pivot makes the root segment the walked "
+             "directory (empty for rooted globs), the relative segment the prefix as written plus the traversed names, "
+             "joining them gives the path, and depth() equals the number of components of the relative segment; "
+             "GlobEntry::root_relative_paths, GlobEntry::depth and the walker use the same helper with (path, walkdir depth, "
+             "stored pivot) and the same sum; to_candidate_path = complete matched text.",
+        note=ASSUME + "Assumed: std::path semantics as modelled in sa/rules/pathmodel.py, walkdir depth. Found and repaired with it: depth() of rooted entries was one too large (1cead95); known: `./` prefixes lose the `.`.",
         ref="4 C14"),
     "C15": dict(
         technique="static analysis: THIR evaluation of the behaviour plumbing (effect log of walkdir builder calls) + constructor tables",
